@@ -23,7 +23,7 @@ from mc.registry import derived as DV
 PROPERTY = 'C08'
 BUDGET = {'quick': 900, 'thorough': 5400}
 INF = float('inf')
-QUICK_SPACES = ('rn3', 'ud3', 'rn3w2', 'rn3wa', 'pw_rn2_2', 'pw_ud2_2', 'nest_rn1_2x2',
+QUICK_SPACES = ('rn2x2', 'pw_rn2_2_c', 'rn3', 'ud3', 'rn3w2', 'rn3wa', 'pw_rn2_2', 'pw_ud2_2', 'nest_rn1_2x2',
                 'pr_rn2_rn2_w', 'rn2')
 DER_BASES = ['L1Norm', 'L2NormSquared', 'L2Norm', 'KullbackLeibler', 'IndicatorBox', 'Huber',
              'IndicatorLpUnitBall', 'KullbackLeiblerCrossEntropy', 'GroupL1Norm',
@@ -69,6 +69,7 @@ def configs(tier):
             cfgs.append({'kind': 'infconv', 'f1': f1, 'f2': f2, 'space': sp})
             cfgs.append({'kind': 'sum', 'f1': f1, 'f2': f2, 'space': sp})
     for sp in ('rn2', 'rn2wa', 'rn2w2', 'ud2'):
+        cfgs.append({'kind': 'simple', 'space': sp})
         for gam in (0.5, 1.0, 2.0):
             cfgs.append({'kind': 'huber-infconv', 'space': sp, 'gamma': gam})
         for mat in ('sym', 'nonsym'):
@@ -80,9 +81,9 @@ def configs(tier):
 def _sk(name):
     st = ('power' if name.startswith('pw_') else 'product' if name.startswith('pr_')
           else 'nested' if name.startswith('nest_') else 'tensor')
-    if name in ('rn3', 'rn2', 'pw_rn2_2', 'nest_rn1_2x2', 'nest_rn2_2x2'):
+    if name in ('rn3', 'rn2', 'pw_rn2_2', 'nest_rn1_2x2', 'nest_rn2_2x2', 'rn2x2'):
         return st + ',unweighted'
-    if name in ('rn3w2', 'rn2w2', 'pw_rn2w2_2', 'ud3', 'ud2', 'pw_ud2_2'):
+    if name in ('rn3w2', 'rn2w2', 'pw_rn2w2_2', 'ud3', 'ud2', 'pw_ud2_2', 'pw_rn2_2_c'):
         return st + ',const-weighted'
     return st + ',nonuniformly-weighted'
 
@@ -101,6 +102,8 @@ def _site(cfg):
                                   cfg['f1'], cfg['f2'], _sk(cfg['space']))
     if k == 'huber-infconv':
         return 'Huber-vs-InfimalConvolution[%s]' % _sk(cfg['space'])
+    if k == 'simple':
+        return 'simple_functional[%s]' % _sk(cfg['space'])
     if k == 'quadform':
         return 'QuadraticForm[%s,vector=%d,%s]' % (cfg['mat'], cfg['vec'], _sk(cfg['space']))
     return k
@@ -170,6 +173,18 @@ def _build(cfg):
         f = f1 + f2
         return dict(f=f, info=info, ref=lambda z: r1(z) + r2(z), cref=None,
                     V=FR.V5P if (s1.posdom or s2.posdom) else FR.V5, dom=None, tol=1e-6)
+    if k == 'simple':
+        # simple_functional given all six ingredients of f = |x|^2 (f* = |y|^2 / 4)
+        info = FR.info(cfg['space'])
+        sp = info.space
+        f = odl.solvers.simple_functional(
+            sp, fcall=lambda x: x.inner(x), grad=lambda x: 2.0 * x,
+            prox=lambda sig: odl.ScalingOperator(sp, 1.0 / (1.0 + 2.0 * sig)), grad_lip=2.0,
+            convex_conj_fcall=lambda y: y.inner(y) / 4.0, convex_conj_grad=lambda y: 0.5 * y,
+            convex_conj_prox=lambda sig: odl.ScalingOperator(sp, 1.0 / (1.0 + 0.5 * sig)),
+            convex_conj_grad_lip=0.5)
+        return dict(f=f, info=info, ref=lambda z: info.norm2(z),
+                    cref=lambda y: info.norm2(y) / 4.0, V=FR.V5, dom=lambda z: True, tol=1e-9)
     if k == 'huber-infconv':
         info = FR.info(cfg['space'])
         gam = cfg['gamma']
@@ -397,11 +412,17 @@ def run(cfg):
             skipped += 1
         except Exception as e:
             first.setdefault('biconjugate_raises:' + type(e).__name__, repr(e)[:200])
-    # (4) Moreau decomposition
-    for sg in (0.5, 2.0):
+    # (4) Moreau decomposition, for the pair (f, f*) and for the pair (f*, f**)
+    pairs = [('', f, fc)]
+    try:
+        pairs.append(('[f*,f**]', fc, fc.convex_conj))
+    except Exception:
+        pass
+    for lvl, fa, fb in pairs:
+      for sg in (0.5, 2.0):
         try:
-            p1 = f.proximal(sg)
-            p2 = fc.proximal(1.0 / sg)
+            p1 = fa.proximal(sg)
+            p2 = fb.proximal(1.0 / sg)
         except Exception:
             # 'whenever both proximals exist': a refused construction means it does not exist
             # (whether the refusal is legitimate is C07's business)
@@ -421,7 +442,7 @@ def run(cfg):
                 continue
             r = a + sg * b
             if np.max(np.abs(r - x)) > max(tol, 1e-8) * (1 + np.max(np.abs(x))):
-                first.setdefault('moreau_decomposition_fails',
+                first.setdefault('moreau_decomposition_fails' + lvl,
                                  'sigma=%s x=%s prox_f=%s prox_f*=%s sum=%s'
                                  % (sg, x.tolist(), a.tolist(), b.tolist(), r.tolist()))
     viol = [{'site': site, 'symptom': s, 'detail': d} for s, d in first.items()]
